@@ -60,6 +60,9 @@ def repo_classify(text, version):
 
 def classify(text, version):
     """-> (tier, fields|None).  fields None = the line must be rejected."""
+    if text.rstrip().count(";") > 5:
+        # more than six fields: the payload cannot contain ';' on the wire, so this is never a message
+        return "A", None
     fields = tables.parse_canonical(text)
     if fields is not None:
         verdict = tables.valid_frame(version, *fields)
@@ -157,7 +160,8 @@ class NetRun:
                 gw_kwargs["retain"] = cfg["retain"]
         self.world = W.World(self.flavour, gw_kwargs, sched=cfg.get("sched"), epoch=cfg.get("epoch", 1_600_000_000.0),
                              utc_offset=cfg.get("utc_offset", 0), fs=self.fs, broker=broker, keep_log=keep_log,
-                             max_steps=cfg.get("max_steps", 400_000), window=None)
+                             max_steps=cfg.get("max_steps", 400_000),
+                             window=(lambda code, names=frozenset(cfg["window"]): code.co_name in names) if cfg.get("window") else None)
         self.broker = broker
         kind = "tcp" if self.flavour in ("tcp", "atcp") else ("mqtt" if broker else "plain")
         self.model = GatewayModel(self.version, kind)
@@ -443,8 +447,8 @@ class NetRun:
         logic = [list(e) for e in world.logic_log[l0:]]
         if self.flavour in ("tcp", "atcp"):
             # the fake gateway device answers the TCP watchdog's version probes on its own (clock driven)
-            markers = [m for m in markers if not str(m[1][1]).startswith(PROBE_PREFIX)]
-            logic = [e for e in logic if not str(e[0]).startswith(PROBE_PREFIX)]
+            markers = [m for m in markers if str(m[1][1]) != PROBE_PREFIX + "2.3.2"]
+            logic = [e for e in logic if str(e[0]) != PROBE_PREFIX + "2.3.2"]
         writes = dev.writes[w0:]
         self.last_w = len(dev.writes)
         all_cbs = world.callbacks[cb0:]
@@ -834,6 +838,8 @@ class NetRun:
             self.trace.append(("set-accepted-odd-type", str(vtype)))
             return
         action, exp = self.model.set_child_value_plan(nid, cid, vtype_int, value, kw.get("ack", 0))
+        if action == "send" and kw.get("msg_type") is not None:
+            exp.out[0]["line"] = f"{nid};{cid};{int(kw['msg_type'])};{kw.get('ack', 0)};{vtype_int};{value}"
         if action == "store":
             self.model.store_desired(nid, cid, vtype_int, str(value))
             self.probe("desired_stored")
@@ -891,6 +897,11 @@ class NetRun:
         except (TypeError, ValueError):
             self.trace.append(("fw-ignored",))
             return
+        if image == b"":
+            # a HEX file without data is not firmware: the call must not start (or disturb) any session
+            self.probe("update_fw_with_empty_hex")
+            self.trace.append(("fw-empty-hex",))
+            return
         if image is not None:
             self.fw_served.pop((ftype_i, fver_i), None)  # a new image under this key: its block count is learnt anew
         done = self.model.ota.schedule(self.model.nodes, copy.deepcopy(nids), ftype_i, fver_i, image)
@@ -900,12 +911,13 @@ class NetRun:
             self.probe("ota_sessions_scheduled", len(done))
         self.trace.append(("fw", nids, ftype_i, fver_i, None if image is None else len(image), done))
 
-    def op_restart(self, late_line=None):
+    def op_restart(self, late_line=None, opts=None):
         """Clean stop, then a fresh gateway object on the same disk.  ``late_line``: a line the
         network delivers at the very moment the final save of stop() has been written (it is
         only ever seen by a gateway that still listens at that point)."""
         world = self.world
         self.inject_at_final_save = None if late_line is None or self.broker is not None else late_line.encode() + b"\n"
+        load_fault = opts.get("load_fault") if opts else None
         before = W.projection(world.gateway.sensors)
         trans_before = W.transient(world.gateway.sensors)
         if any(tr["queue"] or tr["reboot"] or any(any(x is not None for x in v.values()) for v in tr["desired"].values())
@@ -919,8 +931,12 @@ class NetRun:
             if self.last_change_t > self.last_save_t and self.last_change_kind:
                 self.last_kinds.add(self.last_change_kind)
         self.stopping = True
+        disk_at_stop = None
         try:
             world.stop()
+            before = W.projection(world.gateway.sensors)  # what the gateway holds at the instant stop() returns
+            if self.persist:
+                disk_at_stop = self.fs.clone()  # the file as it is at that instant
         except kernel.SimAbort:
             raise
         except Exception as exc:  # pylint: disable=broad-except
@@ -928,6 +944,7 @@ class NetRun:
             self.clean_history = False
         world.settle()
         self.stopping = False
+        self.inject_at_save = None  # a line that found no save to ride on is not delivered to the next lifetime
         world.advance(0.1)
         stopped_gateway = world.gateway
         if late_line is not None:
@@ -941,11 +958,43 @@ class NetRun:
         self.out_lines()
         self.health()
         self.lifetime += 1
+        if disk_at_stop is not None and late_line is None:
+            # "after stop() the file on disk reproduces ...": judged on the disk as stop() left it, not on
+            # what a straggling writer may still add afterwards
+            held = before
+            simfs.FsHolder.fs = disk_at_stop
+            world.fs = disk_at_stop
+            try:
+                scratch = self._build()
+                try:
+                    scratch.tasks.persistence.safe_load_sensors()
+                    got = W.projection(scratch.sensors)
+                except Exception as exc:  # pylint: disable=broad-except
+                    got = {"load raised": repr(exc)}
+            finally:
+                simfs.FsHolder.fs = self.fs
+                world.fs = self.fs
+            if got != held:
+                self.add(vio("restart-lost-state", {"diff": _diff(got, held) if "load raised" not in got else got, "format": self.persist,
+                                                    "when": "disk as it was when stop() returned"}, format=self.persist, when="at-stop-return"))
         if self.broker is not None:
             del self.broker.subs[:]  # a new client session: the old subscriptions are gone
         self._build()
+        if load_fault and self.persist:
+            self.fs.read_faults[self.fs.norm(f"/work/mysensors.{self.persist}")] = load_fault
+            self.faults["read_" + load_fault + "_at_startup"] = self.faults.get("read_" + load_fault + "_at_startup", 0) + 1
         try:
-            world.start(persistence=bool(self.persist))
+            try:
+                world.start(persistence=bool(self.persist))
+            except OSError:
+                if not self.fs.read_faults_fired:
+                    raise
+                # a transient I/O error while reading the file: the application tries again
+                self.probe("start_retried_after_read_error")
+                self.fs.read_faults_fired = 0
+                world.settle()
+                self._build()
+                world.start(persistence=bool(self.persist))
         except kernel.SimAbort:
             raise
         except Exception as exc:  # pylint: disable=broad-except
@@ -967,6 +1016,8 @@ class NetRun:
                              format=self.persist, last_change=None if self.cfg.get("force_dirty") else self.last_change_kind))
             # continue from what was really loaded so later ops stay meaningful
             for nid, rec in after.items():
+                if "children" not in rec:
+                    continue  # not a node (already reported as lost state above)
                 self.model.nodes[nid] = _model_node_from_projection(nid, rec)
             trans = W.transient(world.gateway.sensors)
             for nid, tr in trans.items():
@@ -1102,7 +1153,8 @@ class NetRun:
                     world.sim.wall_skew += op[1]
                     self.faults["clock_jump"] = self.faults.get("clock_jump", 0) + 1
             elif kind == "restart":
-                self.op_restart(op[1].get("late_line") if len(op) > 1 and isinstance(op[1], dict) else None)
+                o1 = op[1] if len(op) > 1 and isinstance(op[1], dict) else {}
+                self.op_restart(o1.get("late_line"), o1)
             elif kind == "fault_tick":
                 # one transient I/O fault at the first operation of the given kind in the next scheduled save
                 self.pending_fault = (op[1], op[2])
@@ -1117,6 +1169,9 @@ class NetRun:
                 # stop() issued at the very instant a scheduled save begins: whether the two
                 # overlap is up to the scheduler (pre-emptive policies)
                 if self.tick_times:
+                    if len(op) > 1 and isinstance(op[1], dict) and op[1].get("line") and self.broker is None:
+                        # ... and a line that the network delivers at the same instant (handled while the save runs)
+                        self.inject_at_save = op[1]["line"].encode() + b"\n"
                     dt = self.tick_times[-1] + 10.0 - world.sim.now
                     if dt > 0:
                         world.sim.sleep(dt)
